@@ -566,16 +566,17 @@ def _real_rank_formula(N, lst, A):
 
 
 def fn_torch(items):
-    """item = [N, canonical basis, stride]: torchclifford StabilizerState.entropy on every
+    """item = [N, canonical basis, stride, lite]: torchclifford StabilizerState.entropy on every
     (stride-th) ordered basis, all subsystems, formats list / tuple / int array / torch bool tensor;
-    the boolean NUMPY mask (the format the method's own isinstance test promises) once per subsystem."""
+    the boolean NUMPY mask (the format the method's own isinstance test promises) once per subsystem.
+    lite=1: index-list format only."""
     m = lib.torch_mods()
     torch = m['torch']
     n = nt = 0
     viol = []
     extra = {}
     for item in items:
-        N, basis, stride = item
+        N, basis, stride, lite = item
         basis = tuple(int(x) for x in basis)
         L = len(basis)
         r = N - L
@@ -592,7 +593,7 @@ def fn_torch(items):
             for si, A in enumerate(subs):
                 if 0 < len(A) < N and _crossing(N, lst, A):
                     nt += 1
-                for fmt in ('list', 'tuple', 'intarray', 'booltensor') + (('boolmask',) if bi == 0 else ()):
+                for fmt in (('list',) if lite else ('list', 'tuple', 'intarray', 'booltensor') + (('boolmask',) if bi == 0 else ())):
                     if fmt == 'booltensor':
                         arg = torch.tensor(fmt_arg('boolmask', A, N).tolist(), dtype=torch.bool)
                     else:
@@ -690,8 +691,17 @@ def legs(tier):
                        src_states=len(it) * GL_ORDER[4] // 16,
                        bound='N=4 pure: all 2295 Lagrangian subspaces x every 16th of the 20160 ordered bases each (capped: 1260 per subspace, 2.89 M lists) x 16 subsystems x {list, boolmask}'))
     tN = [(1, (0, 1)), (2, (0, 1, 2))] + ([(3, (0, 1, 2, 3))] if tier != 'quick' else [])
-    it = [[N, list(b), 1] for N, Ls in tN for L in Ls for b in groups(N, L)]
+    it = [[N, list(b), 1, 0] for N, Ls in tN for L in Ls for b in groups(N, L)]
     out.append(Leg('torch_lists', fn_torch, it, chunk=2, src_states=nlists(tN),
                    bound='torchclifford N<=%d: all %d ordered lists x all subsystems x formats {list, tuple, int array, torch bool tensor}; boolean numpy mask once per group and subsystem' % (
                        tN[-1][0], nlists(tN))))
+    # N=4: the smallest size at which a real-valued matrix rank (torch z2rank) can differ from the GF(2) rank
+    if tier == 'quick':
+        it = [[4, list(b), 168, 1] for b in groups(4, 3)]
+        bound = 'torchclifford N=4 mixed (r=1): all 11475 isotropic subspaces of dimension 3, ONE ordered basis each (capped) x 16 subsystems, index-list format'
+    else:
+        it = [[4, list(b), 6, 1] for b in groups(4, 2)] + [[4, list(b), 24, 1] for b in groups(4, 3)] + [[4, list(b), 2016, 1] for b in groups(4, 4)]
+        bound = ('torchclifford N=4: all isotropic subspaces of dimension 2 / 3 / 4 (5355 / 11475 / 2295) with 1 / 7 / 10 ordered bases each (capped) '
+                 'x 16 subsystems, index-list format')
+    out.append(Leg('torch_N4', fn_torch, it, chunk=24, exhaustive=False, supplementary=True, bound=bound, timeout=3000))
     return out
